@@ -48,10 +48,18 @@ def save_obs(vec):
                 qr.save(io.BytesIO() if knd in BINARY else io.StringIO(), kind=knd, **dict(kw, **{a['which']: TWIN[a['colour']]}))
             except Exception:  # noqa
                 pass
+    via = a.get('via', 'save')
     try:
-        qr.save(buf, kind=kind, **kw)
+        if via == 'uri':
+            (qr.png_data_uri if a['kind'] == 'png' else qr.svg_data_uri)(**kw)
+        elif via == 'inline':
+            qr.svg_inline(**kw)
+        else:
+            qr.save(buf, kind=kind, **kw)
     except Exception as e:  # noqa
         err = e
+    if via != 'save':
+        kind = {'uri': a['kind'] + '_data_uri', 'inline': 'svg_inline'}[via]
     return {'_vec': vec, 'a': a, 'seen': classify(err), 'exit': 0, 'output_written': True, 'stderr_is_library_message': True, 'traceback': False,
             '_what': f"save(kind={kind!r}, {kw})" + (' after the equal valid colour' if a.get('prior') == 'twin' else ''), '_msg': str(err)[:100] if err else ''}
 
